@@ -348,7 +348,6 @@ func MetaDataKVHandler(resHolder *SearchResult, attrGetter AttributeGetter, addi
 	var n uint16
 	var more bool
 	var id, dbVal, primDBVal []byte
-	var wasPrimMatch bool
 	var dbValInt signed256.Int
 	fltVals := make([]signed256.Int, len(fs))
 	fltValReady := make([]bool, len(fs))
@@ -400,12 +399,16 @@ func MetaDataKVHandler(resHolder *SearchResult, attrGetter AttributeGetter, addi
 					matches = matchValues(checkedDBVal, mch, fltVal)
 				}
 				if !matches {
-					if mch != object.MatchStringNotEqual && (wasPrimMatch || mch != object.MatchNumGT) {
+					// keys go in ascending order of the primary attribute, so a value
+					// that is below a lower bound (or equals an excluded one) does not
+					// mean the following ones fail too. Any other mismatch does.
+					switch mch {
+					case object.MatchStringNotEqual, object.MatchNumGT, object.MatchNumGE:
+						return true
+					default:
 						return false
 					}
-					return true
 				}
-				wasPrimMatch = true
 				// TODO: attribute value can be requested, it can be collected here, or we can
 				//  detect earlier when an object goes beyond the already collected result. The
 				//  code can become even more complex. Same below
